@@ -16,6 +16,28 @@ CHECKS = {
             "from the specification's definitions. Unit tests cannot reach this because the interesting totals are above 2^53.",
             "Trusted: BigNat.tla limb arithmetic, the harness's encoding of inputs/outputs; totals are assumed to fit 64 bits as the property says.",
             "DESIGN.md 5 C06"),
+    "C15": ("model_checking",
+            "TLC: ViewContexts.tla complete state graph + TLC validation of tree traces (all call sequences up to a depth, random long ones) recorded from the real state.ViewContexts",
+            "Registry laws (never hand out a context for a superseded position, cancel exactly the older ones, release everything on "
+            "shutdown, no resurrection) are invariants / action properties of ViewContexts.tla checked on its complete state graph for "
+            "2x3 (quick) and 3x4 (thorough) positions, so every call order over those ranges is covered at the design level. The real "
+            "registry is then driven through every call sequence up to depth 4 (quick) / 5 (thorough) plus random sequences; each call's "
+            "result and the Err() of every context handed out so far are judged by TLC against the same step functions.",
+            "Trusted: the harness's observation of contexts (Err() of the most recently issued context per position). The runtime part (SPI contexts on election/sync/shutdown) is added by the runtime checks when built.",
+            "DESIGN.md 5 C15"),
+    "C18": ("model_checking",
+            "TLC: Leader.tla round-robin law for sizes 4..64 + TLC validation (BigNat modulo) of the real leader function tabulated over 64-bit views",
+            "The leader function is a pure function of (view, committee); TLC checks the round-robin law of the specification for every "
+            "size 4..64 and validates every recorded call of the real function (dense 0..4n, powers of two +-1, neighbourhoods of 2^31, "
+            "2^32, 2^63, 2^64-1, random 64-bit views; runs of n consecutive views including across 2^63 and the 2^64 wrap) against v mod n.",
+            "Trusted: VerifLeaderOf accessor (calls the unexported function the term uses), BigNat.tla. All correct nodes compute the same leader because the function is deterministic in (view, ordered committee); behaviour-level acceptance by view is exercised by the cluster checks.",
+            "DESIGN.md 5 C18"),
+    "C19": ("model_checking",
+            "TLC validation of recorded CalcTimeout values (positivity, base*2^v when it fits int64, monotone in the view) via Timeout.tla/BigNat; trigger state machine part pending",
+            "Formula part: every recorded CalcTimeout(base, v) of the real trigger (views 0..200, boundary classes up to 2^64-1, bases 1ns..2^63-1) "
+            "is checked by TLC to be positive, equal to base*2^v whenever that fits a Duration, and not smaller than the value for a lower view.",
+            "Trusted: BigNat.tla; the saturation value itself is not pinned (any positive monotone value is accepted once base*2^v exceeds int64).",
+            "DESIGN.md 5 C19"),
 }
 
 PENDING_REASON = "check not built yet in this round; planned per DESIGN.md section 5 (no claim is made until a sound check exists)"
